@@ -26,7 +26,10 @@ Inductive c16_case :=
          (file : option ogrid) (obs : option ofld)
 | CRead (g : ogrid) (side : option osubs) (obs : option ofld)
 | CLegacy (exact : bool) (coords : list (list Q)) (vec : bool) (rows : list (list Q))
-          (side : option osubs) (obs : option ofld).
+          (side : option osubs) (obs : option ofld)
+(* a sequence of calls on one file name: both observations must agree with the model; a refused
+   write is the identity on the disk state, so the first observation is taken AFTER the second call *)
+| CBoth (a b : c16_case).
 
 (* ---------- instantiation of the model at Q ---------- *)
 Definition sumsq (l : list Q) : Q := fold_right (fun x acc => x * x + acc) 0 l.
@@ -186,7 +189,7 @@ Definition is_txt (rep : string) : bool := String.eqb rep "txt".
 Definition far_single (coords : list (list Q)) : bool :=
   existsb (fun l => match l with [x] => Qle_bool 100000000 (Qabs x) | _ => false end) coords.
 
-Definition check_C16 (c : c16_case) : bool :=
+Fixpoint check_C16 (c : c16_case) : bool :=
   match c with
   | CGrid exact pyth p1 p2 n_ nv vd vals valid obs probes =>
       match mkfield p1 p2 n_ [] nv vd vals valid with
@@ -225,4 +228,5 @@ Definition check_C16 (c : c16_case) : bool :=
                 else res_rel (fld_rel exact) (q_from_legacy (mkLegacy coords vec rows) (option_map (map (mk_sub m0)) side)) obs
       | _ => res_rel (fld_rel exact) (q_from_legacy (mkLegacy coords vec rows) (option_map (map (mk_sub m0)) side)) obs
       end
+  | CBoth a b => check_C16 a && check_C16 b
   end.
